@@ -113,9 +113,32 @@ def r13_8(ctx: Ctx) -> None:
     # that is already in it sets a flag `parallel` depends on
     adds = [c for c in q.calls(f) if attr_tail(c) == "add" and isinstance(c.func.value, ast.Name) and c.args and isinstance(c.args[0], ast.Name)]
     path_sets = {}
+    inode_adds = []
     for c in adds:
+        if q.derives_from(f, c.args[0], lambda v: isinstance(v, ast.Call) and (dotted(v.func) or "") in ("os.stat", "os.lstat") or (isinstance(v, ast.Attribute) and v.attr == "st_ino"), depth=2):
+            inode_adds.append(c)  # the identity of the file that is there (device, inode): judged below
+            continue
         if q.derives_from(f, c.args[0], lambda v: isinstance(v, ast.Call) and (dotted(v.func) or "").endswith("get_sanitized_output_path"), depth=3):
             path_sets[c.func.value.id] = c
+    # (d) two NAMES of one file (hard links in the destination) are one output too: the file that is there is entered by its identity
+    # (st_dev, st_ino) next to the path, and a hit switches parallel extraction off like a path hit does
+    wcalls_ = [c for c in q.calls(f) if "py7zr:Worker.extract" in shared.targets_of(ctx, f, c)]
+    ok_inode = False
+    for c in inode_adds:
+        keyname = c.args[0].id
+        sname_ = c.func.value.id
+        tests_ = [t for t in cfg_of(f.node).nodes if t.kind == "test" and isinstance(t.ast, ast.Compare) and isinstance(t.ast.ops[0], ast.In) and norm(t.ast.left) == keyname
+                  and norm(t.ast.comparators[0]) == sname_]
+        for t in tests_:
+            sets_ = [n for n in walk(f.node) if isinstance(n, ast.Assign) and isinstance(n.value, ast.Constant) and n.value.value is True and isinstance(n.targets[0], ast.Name)
+                     and any(pol and cd is t.ast for cd, pol in q.facts_at(f, n))]
+            for wc in wcalls_:
+                par = next((k.value for k in wc.keywords if k.arg == "parallel"), wc.args[2] if len(wc.args) > 2 else None)
+                if par is not None and shared.off_when(f, par, lambda e: isinstance(e, ast.Name) and e.id in {s_.targets[0].id for s_ in sets_}):
+                    ok_inode = True
+    ctx.check(ok_inode, "R13.8", f, inode_adds[0] if inode_adds else f.node, "two names of one existing file (hard links) are extracted in archive order",
+              "_extract compares output PATHS only: two members whose destination names are hard links of one file (both exist in the destination) are written by two workers "
+              "into the same inode at the same time, and the schedule decides which bytes remain under both names", construct="hard-linked outputs in parallel")
     ctx.floor("R13.8", len(path_sets), 1, "set of output paths in _extract")
     cfg = cfg_of(f.node)
     for sname, addc in sorted(path_sets.items()):
